@@ -31,7 +31,7 @@ func runC01(c *Ctx, pr *PropertyRun) {
 	pr.Trusted = append(pr.Trusted, "golang.org/x/tools/go/ssa v0.29.0", "the interpreter's models of net/http, os and path/filepath calls (checker/p_c01.go, p_fs.go)")
 
 	c01Dispatch(c, pr, "C01")
-	c01Adapter(c, pr)
+	c01Adapter(c, pr, "C01")
 	fsFaultRules(c, pr, "C01")
 	c01Structure(c, pr)
 }
@@ -489,9 +489,9 @@ func c01Dispatch(c *Ctx, pr *PropertyRun, prop string) {
 // ---------------------------------------------------------------------------
 // the webdav adapter (webdav.backend) over an abstract FileSystem
 
-func c01Adapter(c *Ctx, pr *PropertyRun) {
+func c01Adapter(c *Ctx, pr *PropertyRun, prop string) {
 	p := c.P
-	r := NewRule("C01", "C01.adapter", "the adapter between the HTTP layer and FileSystem: option polarity, code-decided refusals before any effect, status rewrites (E2)")
+	r := NewRule(prop, prop+".adapter", "the adapter between the HTTP layer and FileSystem: option polarity, code-decided refusals before any effect, status rewrites (E2)")
 	r.Exhaustive = true
 	pr.Rules = append(pr.Rules, r)
 	fileInfoT := p.NamedType(pkgWebdav, "FileInfo")
@@ -700,7 +700,10 @@ func c01Adapter(c *Ctx, pr *PropertyRun) {
 					case isNamedPtr(prm.Type(), pkgInternal, "Href"):
 						args = append(args, in.symPointee(p.lookupType("net/url", "URL"), "dest"))
 					case types.Identical(prm.Type().Underlying(), types.Typ[types.Bool]):
-						args = append(args, LazyBool{prm.Name()})
+						// named by POSITION, after the parameter of the
+						// internal.Backend interface method the dispatcher
+						// calls — not after the adapter's own parameter names
+						args = append(args, LazyBool{ifaceParamName(p, tt.method, i-1, prm.Name())})
 					default:
 						args = append(args, Opaque{prm.Name(), prm.Type()})
 					}
@@ -729,6 +732,29 @@ func c01Adapter(c *Ctx, pr *PropertyRun) {
 		r.Count("rows_"+t.method, res.Runs)
 	}
 	r.RequireRole("decision-table")
+}
+
+// ifaceParamName: the name of parameter i of internal.Backend's method.
+func ifaceParamName(p *Program, method string, i int, fallback string) string {
+	n := p.NamedType(pkgInternal, "Backend")
+	if n == nil {
+		return fallback
+	}
+	it, ok := n.Underlying().(*types.Interface)
+	if !ok {
+		return fallback
+	}
+	for j := 0; j < it.NumMethods(); j++ {
+		m := it.Method(j)
+		if m.Name() != method {
+			continue
+		}
+		sig := m.Type().(*types.Signature)
+		if i < sig.Params().Len() && sig.Params().At(i).Name() != "" {
+			return sig.Params().At(i).Name()
+		}
+	}
+	return fallback
 }
 
 var _ = sort.Strings
